@@ -134,7 +134,9 @@ void ezc3d::Header::write(std::fstream &f) const
         f.write(reinterpret_cast<const char*>(&_eventsDisplay[i]), 1*ezc3d::DATA_TYPE::WORD);
     f.write(reinterpret_cast<const char*>(&_emptyBlock3), 1*ezc3d::DATA_TYPE::WORD);
     for (unsigned int i = 0; i < _eventsLabel.size(); ++i){
-        const char* event = _eventsLabel[i].c_str();
+        // A label takes exactly 4 bytes in the file, shorter labels are padded with null characters
+        char event[2*ezc3d::DATA_TYPE::WORD] = {0, 0, 0, 0};
+        _eventsLabel[i].copy(event, 2*ezc3d::DATA_TYPE::WORD);
         f.write(event, 2*ezc3d::DATA_TYPE::WORD);
     }
     for (int i=0; i<22; ++i)
